@@ -188,6 +188,23 @@ def run(ctx, rep):
         rep.check("C20.d", f"no-early-eof/{i}", okz, where=where(BR, bb),
                   what="a zero-length read of the current chunk is never returned while further chunks remain (empty chunks are skipped)" if okz else
                        "the result of reading a chunk is returned unchecked: an empty chunk makes the reader report end-of-data early, and the pre-sized file is published with zeros")
+    # ---- C20.a (OpenDAL adapter): Ok only after the operator's write succeeded; the bytes written are the content handed in ----
+    OW = prog.bodies.get("<rustic_backend::opendal::OpenDALBackend as rustic_core::backend::WriteBackend>::write_bytes")
+    if OW is None:
+        rep.note("OpenDAL backend not built in this configuration")
+    else:
+        ws = [(bb, t) for bb, t in OW.calls() if "callee" in t and re.search(r"opendal::(blocking::)?(Blocking)?Operator::write$|Operator::write_with$", callee(t))]
+        rep.require("C20.a", "opendal/write-site", len(ws) == 1, where=OW.loc(), what="the OpenDAL adapter writes through one Operator::write call")
+        if len(ws) == 1:
+            wb, wt = ws[0]
+            kind, edges = ok_cut(OW, wb)
+            okret = [bi for bi, blk in enumerate(OW.blocks) for s_ in blk["s"] if s_[0] == "=" and s_[1] == [0] and s_[2][0] == "agg" and s_[2][1][0] == "adt" and s_[2][1][2] == "Ok"]
+            reach = OW.reachable_from(0, cut_edges=edges)
+            oko = kind == "?" and bool(okret) and not any(b_ in reach for b_ in okret)
+            rep.check("C20.a", "opendal/ok-only-after-write", oko, where=where(OW, wb), what="OpenDAL write_bytes returns Ok only after Operator::write succeeded (no 'already there' shortcut that keeps old bytes)" if oko else
+                      "OpenDAL write_bytes can return Ok WITHOUT writing (shortcut before Operator::write): a rewrite of an existing id with different bytes is silently dropped")
+            sl = flow.backward_slice(OW, op_place(wt["args"][2])) if len(wt["args"]) > 2 and op_place(wt["args"][2]) else {"args": set()}
+            rep.check("C20.a", "opendal/writes-the-content", 5 in sl["args"], where=where(OW, wb), what="the bytes handed to Operator::write derive from the `content` parameter")
     # ---- C20.b listing filters -----------------------------------------------------------------------
     for be, paths in (("local", [LB + "ReadBackend>::list", LB + "ReadBackend>::list_with_size"]),
                       ("opendal", ["<rustic_backend::opendal::OpenDALBackend as rustic_core::backend::ReadBackend>::list", "<rustic_backend::opendal::OpenDALBackend as rustic_core::backend::ReadBackend>::list_with_size"])):
